@@ -240,3 +240,477 @@ class Canon:
         if k == 'init':
             return Poly.atom(('init', a[0], tuple(self(x).key() for x in a[1])))
         return Poly.atom(('opaque', show(e)))
+
+
+# ---------------------------------------------------------------------------------------
+# Conditions: boolean formulas over comparison atoms
+#   formula := ('true',) | ('false',) | ('atom', base_key, rel, c) | ('bool', key)
+#            | ('not', f) | ('and', f, g) | ('or', f, g)
+#   ('atom', base, rel, c) means  base  rel  c   with rel in '<', '<=', '==' and base a Poly key
+#   whose constant term is zero and whose first coefficient is positive (sign-normalised).
+# ---------------------------------------------------------------------------------------
+
+def _split_base(p):
+    """Poly -> (sign-normalised base Poly without constant, sign, constant)."""
+    c = p.t.get((), 0)
+    b = Poly({k: v for k, v in p.t.items() if k != ()})
+    if not b.t:
+        return b, 1, c
+    first = sorted(b.t.items(), key=lambda kv: repr(kv[0]))[0][1]
+    if first < 0:
+        return -b, -1, c
+    return b, 1, c
+
+
+def cmp_formula(op, l, r):
+    """l op r over integers -> formula."""
+    d = l - r
+    if d.is_const():
+        v = d.const_value()
+        t = {'<': v < 0, '<=': v <= 0, '>': v > 0, '>=': v >= 0, '==': v == 0, '!=': v != 0}[op]
+        return ('true',) if t else ('false',)
+    b, s, c = _split_base(d)
+    # d = s*b + c ; d op 0
+    if op in ('==', '!='):
+        # s*b == -c  ->  b == -c*s   (s is +-1)
+        f = ('atom', b.key(), '==', -c * s)
+        return f if op == '==' else ('not', f)
+    if op in ('>', '>='):
+        # d > 0  <=>  -d < 0
+        s, c = -s, -c
+        op = '<' if op == '>' else '<='
+    # now s*b + c  op  0 with op in <, <=
+    if s > 0:
+        return ('atom', b.key(), op, -c)           # b op -c
+    # -b + c op 0  <=>  b >= c (for <=)  or b > c (for <)
+    if op == '<=':
+        return ('not', ('atom', b.key(), '<', c))   # b >= c
+    return ('not', ('atom', b.key(), '<=', c))      # b > c
+
+
+def f_not(f):
+    if f == ('true',):
+        return ('false',)
+    if f == ('false',):
+        return ('true',)
+    if f[0] == 'not':
+        return f[1]
+    return ('not', f)
+
+
+def f_and(f, g):
+    if f == ('false',) or g == ('false',):
+        return ('false',)
+    if f == ('true',):
+        return g
+    if g == ('true',):
+        return f
+    return ('and', f, g)
+
+
+def f_or(f, g):
+    if f == ('true',) or g == ('true',):
+        return ('true',)
+    if f == ('false',):
+        return g
+    if g == ('false',):
+        return f
+    return ('or', f, g)
+
+
+def formula_atoms(f, out=None):
+    out = set() if out is None else out
+    if f[0] in ('atom', 'bool'):
+        out.add(f)
+    elif f[0] == 'not':
+        formula_atoms(f[1], out)
+    elif f[0] in ('and', 'or'):
+        formula_atoms(f[1], out)
+        formula_atoms(f[2], out)
+    return out
+
+
+def formula_str(f):
+    if f[0] == 'true':
+        return 'true'
+    if f[0] == 'false':
+        return 'false'
+    if f[0] == 'atom':
+        return '%r %s %d' % (Poly(dict(f[1])), f[2], f[3])
+    if f[0] == 'bool':
+        return 'B[%s]' % poly_key_str(f[1])
+    if f[0] == 'not':
+        return '!(%s)' % formula_str(f[1])
+    return '(%s %s %s)' % (formula_str(f[1]), '&&' if f[0] == 'and' else '||', formula_str(f[2]))
+
+
+class Valuation:
+    """Assignment: base_key -> ('pt', c) | ('gap', lo, hi) (lo/hi may be None) and bool key -> 0/1."""
+
+    def __init__(self, regions, bools):
+        self.regions = regions
+        self.bools = bools
+
+    def eval(self, f):
+        k = f[0]
+        if k == 'true':
+            return True
+        if k == 'false':
+            return False
+        if k == 'not':
+            return not self.eval(f[1])
+        if k == 'and':
+            return self.eval(f[1]) and self.eval(f[2])
+        if k == 'or':
+            return self.eval(f[1]) or self.eval(f[2])
+        if k == 'bool':
+            return bool(self.bools[f[1]])
+        _, base, rel, c = f
+        reg = self.regions[base]
+        if reg[0] == 'pt':
+            v = reg[1]
+            return {'<': v < c, '<=': v <= c, '==': v == c}[rel]
+        lo, hi = reg[1], reg[2]   # open gap (lo, hi): every value strictly between
+        if rel == '==':
+            return False
+        # thresholds are region boundaries, so c <= lo or c >= hi
+        if hi is not None and c >= hi:
+            return True
+        return False
+
+    def describe(self):
+        out = []
+        for b, reg in sorted(self.regions.items(), key=repr):
+            bs = repr(Poly(dict(b)))
+            if reg[0] == 'pt':
+                out.append('%s = %d' % (bs, reg[1]))
+            else:
+                lo = '-inf' if reg[1] is None else str(reg[1])
+                hi = '+inf' if reg[2] is None else str(reg[2])
+                out.append('%s in (%s, %s)' % (bs, lo, hi))
+        for b, v in sorted(self.bools.items(), key=repr):
+            out.append('B[%s] = %s' % (poly_key_str(b), bool(v)))
+        return ', '.join(out)
+
+
+def valuations(formulas, facts=None, limit=200000):
+    """All region assignments over the bases occurring in the formulas.  `facts` maps a base key to
+    (lo, hi) integer bounds (type facts such as unsigned >= 0) that prune regions."""
+    atoms = set()
+    for f in formulas:
+        formula_atoms(f, atoms)
+    thresholds = {}
+    bools = set()
+    for a in atoms:
+        if a[0] == 'bool':
+            bools.add(a[1])
+        else:
+            thresholds.setdefault(a[1], set()).add(a[3])
+    facts = facts or {}
+    dims = []
+    for b, cs in sorted(thresholds.items(), key=repr):
+        cs = sorted(cs)
+        regs = []
+        prev = None
+        for c in cs:
+            if prev is None:
+                regs.append(('gap', None, c))
+            elif c - prev > 1:
+                regs.append(('gap', prev, c))
+            regs.append(('pt', c))
+            prev = c
+        regs.append(('gap', prev, None))
+        lo, hi = facts.get(b, (None, None))
+        keep = []
+        for r in regs:
+            if r[0] == 'pt':
+                if (lo is not None and r[1] < lo) or (hi is not None and r[1] > hi):
+                    continue
+            else:
+                rlo = r[1] + 1 if r[1] is not None else None
+                rhi = r[2] - 1 if r[2] is not None else None
+                if lo is not None and rhi is not None and rhi < lo:
+                    continue
+                if hi is not None and rlo is not None and rlo > hi:
+                    continue
+            keep.append(r)
+        dims.append((b, keep))
+    bl = sorted(bools, key=repr)
+    total = 1
+    for _b, regs in dims:
+        total *= max(1, len(regs))
+    total *= 2 ** len(bl)
+    if total > limit:
+        raise AnalysisError('ordering abstraction: %d assignments exceed the bound %d' % (total, limit))
+    for combo in itertools.product(*[regs for _b, regs in dims]):
+        regions = {b: r for (b, _), r in zip(dims, combo)}
+        for bv in itertools.product((0, 1), repeat=len(bl)):
+            yield Valuation(regions, dict(zip(bl, bv)))
+
+
+# ---------------------------------------------------------------------------------------
+# Symbolic execution of loop-free IR into guarded normal forms
+# ---------------------------------------------------------------------------------------
+
+class PathState:
+    __slots__ = ('env', 'guard', 'effects')
+
+    def __init__(self, env, guard=('true',), effects=()):
+        self.env = env
+        self.guard = guard
+        self.effects = effects
+
+    def fork(self, cond):
+        return PathState(dict(self.env), f_and(self.guard, cond), self.effects)
+
+
+class Summary:
+    """Result of symbolic execution: list of (guard formula, outcome kind, result key, effects)."""
+
+    def __init__(self, name):
+        self.name = name
+        self.paths = []
+
+    def add(self, guard, kind, result, effects):
+        if guard != ('false',):
+            self.paths.append((guard, kind, result, tuple(effects)))
+
+    def guards(self):
+        return [p[0] for p in self.paths]
+
+    def outcome(self, val):
+        hits = [p for p in self.paths if val.eval(p[0])]
+        return hits
+
+    def dump(self):
+        out = []
+        for g, k, r, eff in self.paths:
+            out.append('  [%s] -> %s %s%s' % (formula_str(g), k, poly_key_str(r) if r is not None else '',
+                                             (' effects=' + '; '.join('%s:=%s' % (a, poly_key_str(b)) for a, b in eff)) if eff else ''))
+        return '\n'.join(out)
+
+
+class SymExec:
+    def __init__(self, sym=None, fn=None, resolve=None, fold_global=None, lang='c', inline_bound=3,
+                 local_prefixes=(), bool_calls=()):
+        self.sym = sym or {}
+        self.fn = fn or {}
+        self.resolve = resolve
+        self.fold_global = fold_global
+        self.lang = lang
+        self.inline_bound = inline_bound
+
+    def canon(self, env):
+        return _InliningCanon(self, env)
+
+    def cond(self, e, env):
+        """IR expression in boolean position -> formula."""
+        k, a = e.k, e.a
+        if k == 'un' and a[0] == '!':
+            return f_not(self.cond(a[1], env))
+        if k == 'un' and a[0] == 'bool':
+            return self.cond(a[1], env)
+        if k == 'cast':
+            return self.cond(a[2], env)
+        if k == 'bin':
+            op = a[0]
+            if op == '&&':
+                return f_and(self.cond(a[1], env), self.cond(a[2], env))
+            if op == '||':
+                return f_or(self.cond(a[1], env), self.cond(a[2], env))
+            if op in ('<', '<=', '>', '>=', '==', '!='):
+                c = self.canon(env)
+                return cmp_formula(op, c(a[1]), c(a[2]))
+        if k == 'const':
+            return ('true',) if a[0] else ('false',)
+        p = self.canon(env)(e)
+        if p.is_const():
+            return ('true',) if p.const_value() else ('false',)
+        # truthiness of an integer/pointer/boolean term: term != 0
+        atoms = p.atoms()
+        if len(p.t) == 1 and len(atoms) == 1:
+            a0 = next(iter(atoms))
+            if a0[0] == 'not':
+                return ('not', ('bool', a0[1]))
+            if a0[0] == 'cmp':
+                return cmp_formula(a0[1], Poly(dict(a0[2])), Poly(dict(a0[3])))
+        return ('bool', p.key())
+
+    def run(self, func_name, body, env):
+        s = Summary(func_name)
+        st = PathState(dict(env))
+        falls = self._block(body, [st], s, 0)
+        for f in falls:
+            s.add(f.guard, 'fallthrough', None, f.effects)
+        return s
+
+    def _block(self, block, states, summary, depth):
+        for stmt in block:
+            if not states:
+                break
+            states = self._stmt(stmt, states, summary, depth)
+        return states
+
+    def _stmt(self, s, states, summary, depth):
+        k, a = s.k, s.a
+        out = []
+        if k == 'decl':
+            for st in states:
+                if a[2] is not None:
+                    st.env[a[0]] = self.canon(st.env)(a[2])
+                out.append(st)
+            return out
+        if k == 'assign':
+            for st in states:
+                c = self.canon(st.env)
+                v = c(a[1])
+                if a[2] != '=':
+                    from .ir import E as _E
+                    v = c(_E('bin', a[2][:-1], a[0], a[1]))
+                tgt = a[0]
+                if tgt.k == 'var':
+                    st.env[tgt.a[0]] = v
+                elif tgt.k == 'init' and tgt.a[0] in ('tuple', 'list'):
+                    self._unpack(st, tgt, v)
+                else:
+                    p = c.path(tgt)
+                    if p is None:
+                        raise AnalysisError('%s: assignment target %s is not a recognised l-value' % (s.loc, show(tgt)))
+                    st.env[p] = v
+                    root = p.split('.')[0].split('[')[0]
+                    st.effects = st.effects + ((self.sym.get(p, p), v.key()),)
+                out.append(st)
+            return out
+        if k == 'expr':
+            for st in states:
+                e = a[0]
+                if e.k == 'call':
+                    st.effects = st.effects + (('call', self.canon(st.env)(e).key()),)
+                out.append(st)
+            return out
+        if k == 'if':
+            for st in states:
+                f = self.cond(a[0], st.env)
+                t = st.fork(f)
+                e = st.fork(f_not(f))
+                if t.guard != ('false',):
+                    out.extend(self._block(a[1], [t], summary, depth))
+                if e.guard != ('false',):
+                    out.extend(self._block(a[2], [e], summary, depth))
+            return out
+        if k == 'return':
+            for st in states:
+                r = self.canon(st.env)(a[0]).key() if a[0] is not None else None
+                summary.add(st.guard, 'return', r, st.effects)
+            return []
+        if k == 'raise':
+            for st in states:
+                summary.add(st.guard, 'raise', None, st.effects)
+            return []
+        if k == 'block':
+            return self._block(a[0], states, summary, depth)
+        if k in ('break', 'continue'):
+            for st in states:
+                summary.add(st.guard, k, None, st.effects)
+            return []
+        if k == 'switch':
+            for st in states:
+                c = self.canon(st.env)
+                subj = c(a[0])
+                taken = ('false',)
+                arms = a[1]
+                pending = []
+                for i, (labels, blk) in enumerate(arms):
+                    f = ('false',)
+                    has_default = False
+                    for l in labels:
+                        if l is None:
+                            has_default = True
+                        else:
+                            f = f_or(f, cmp_formula('==', subj, c(l)))
+                    pending.append((f, has_default, i))
+                alln = ('false',)
+                for f, _d, _i in pending:
+                    alln = f_or(alln, f)
+                for f, has_default, i in pending:
+                    g = f_or(f, f_not(alln)) if has_default else f
+                    t = st.fork(g)
+                    if t.guard == ('false',):
+                        continue
+                    cur = [t]
+                    j = i
+                    while cur and j < len(arms):
+                        sub = Summary('arm')
+                        cur = self._block(arms[j][1], cur, sub, depth)
+                        for (gg, kk, rr, ee) in sub.paths:
+                            if kk == 'break':
+                                out.append(PathState(dict(t.env), gg, ee))
+                            else:
+                                summary.add(gg, kk, rr, ee)
+                        j += 1
+                    out.extend(cur)
+                if not any(d for _f, d, _i in pending):
+                    e = st.fork(f_not(alln))
+                    if e.guard != ('false',):
+                        out.append(e)
+            return out
+        if k == 'loop':
+            raise AnalysisError('%s: loop in a function summarised as loop-free' % s.loc)
+        if k == 'try':
+            return self._block(a[0], states, summary, depth)
+        raise AnalysisError('%s: statement kind %s not supported by the summariser' % (s.loc, k))
+
+    def _unpack(self, st, tgt, v):
+        elts = tgt.a[1]
+        at = v.atoms()
+        if len(v.t) == 1 and len(at) == 1:
+            a0 = next(iter(at))
+            if a0[0] == 'init' and len(a0[2]) == len(elts):
+                for e, k in zip(elts, a0[2]):
+                    if e.k == 'var':
+                        st.env[e.a[0]] = Poly(dict(k))
+                return
+        for i, e in enumerate(elts):
+            if e.k == 'var':
+                st.env[e.a[0]] = Poly.atom(('proj', i, v.key()))
+
+
+class _InliningCanon(Canon):
+    def __init__(self, sx, env):
+        Canon.__init__(self, env=env, sym=sx.sym, fn=sx.fn, lang=sx.lang, fold_global=sx.fold_global)
+        self.sx = sx
+
+    def __call__(self, e):
+        if e.k == 'call' and self.sx.resolve is not None:
+            r = self.sx.resolve(e, self)
+            if r is not None:
+                return r
+        if e.k == 'fstr':
+            return Poly.atom(('fstr', tuple(self(x).key() for x in e.a[0])))
+        if e.k == 'kw':
+            return Poly.atom(('kw', e.a[0], self(e.a[1]).key()))
+        return Canon.__call__(self, e)
+
+
+def compare_summaries(sa, sb, facts=None, project=None, constraint=None, limit=200000):
+    """Outcome comparison on every consistent valuation of the union of atoms.
+    project(path) -> comparable outcome (default: kind, result, effects);
+    constraint(valuation) -> False to skip valuations excluded by a stated precondition.
+    Returns (number of valuations examined, list of (valuation description, outcome a, outcome b))."""
+    project = project or (lambda p: (p[1], p[2], p[3]))
+    diffs = []
+    n = 0
+    for val in valuations(sa.guards() + sb.guards(), facts=facts, limit=limit):
+        if constraint is not None and not constraint(val):
+            continue
+        ha, hb = sa.outcome(val), sb.outcome(val)
+        if len(ha) != 1 or len(hb) != 1:
+            if not ha and not hb:
+                continue
+            raise AnalysisError('summary of %s/%s is not a partition under valuation {%s}: %d/%d paths' %
+                                (sa.name, sb.name, val.describe(), len(ha), len(hb)))
+        n += 1
+        oa, ob = project(ha[0]), project(hb[0])
+        if oa != ob:
+            diffs.append((val.describe(), oa, ob))
+    return n, diffs
